@@ -207,7 +207,7 @@ def run_case(rng, idx, tier, lane, ctx):
             continue
         for i in range(len(S)):
             counters["symbolic_comparisons"] += 1
-            eq, how = same_expr(sym[i], ref.F[i], rng, names, scale_terms=[ref.V[i, k_] * ref.R[k_] for k_ in range(ref.nE)] + [ref.O[i]])
+            eq, how = same_expr(sym[i], ref.F[i], rng, names, scale_terms=ref.flow_terms(i))
             if not eq:
                 bad("route '%s' yields a different ODE than the same processes as Event objects" % name, route=name,
                     state=S[i], got=str(sym[i]), expected=str(ref.F[i]))
